@@ -153,6 +153,25 @@ def check_lemma(case):
             base = base if base is not None else containers(p, sh, max_t)
             if containers(p, sh | set(boxes), max_t) != base:
                 return BAD("shadable_boxes_changes_meaning", {"point": key, "boxes": boxes})
+    # a bivincular-type object with the same shading is the same mesh pattern: same verdicts
+    from ..lib import biv_views
+
+    for kind, B2 in biv_views(p, sh):
+        for c in cells:
+            if sorted(B2.can_shade(c)) != sorted(M.can_shade(c)):
+                return BAD("can_shade_bivincular_object", {"type": kind, "cell": c, "got": B2.can_shade(c), "want": M.can_shade(c)})
+        got2 = {key: sorted(val) for key, val in dict(B2.shadable_boxes()).items() if val}
+        if got2 != got_norm:
+            return BAD("shadable_boxes_bivincular_object", {"type": kind, "got": got2, "want": got_norm})
+        if k >= 1:
+            free = [c for c in cells if c not in sh][:3]
+            for c in free:
+                for d in (-1, 0, 1, 2, 3):
+                    R2, R1 = B2.add_point(c, d), M.add_point(c, d)
+                    if tuple(R2.pattern) != tuple(R1.pattern) or frozenset(R2.shading) != frozenset(R1.shading):
+                        return BAD("add_point_bivincular_object", {"type": kind, "cell": c, "dir": d, "got": repr(R2), "want": repr(R1)})
+        if B2.ascii_plot() != M.ascii_plot():
+            return BAD("ascii_plot_bivincular_object", {"type": kind})
     # shade = union
     some = [c for i, c in enumerate(cells) if i % 3 == 0]
     if MeshPatt(Perm(p), sh).shade(*some).shading != sh | set(some) or M.shade().shading != sh:
@@ -292,6 +311,33 @@ def check_plot(case):
             return BAD("plot_unparsable", {"cell_size": cs, "text": txt, "why": str(exc)})
         if back != (p, sh):
             return BAD("plot_roundtrip", {"cell_size": cs, "text": txt, "parsed": [list(back[0]), sorted(back[1])]})
+    # the TikZ rendering is text too: grid size, filled cells and points are read back
+    import re
+
+    tik = M.to_tikz()
+    grid = re.search(r"\\foreach \\x in \{1,\.\.\.,(\d+)\}", tik)
+    cells = {(int(a), int(b)) for a, b in re.findall(r"\] \((\d+), (\d+)\) rectangle \+\(1,1\);", tik)}
+    pts = [(int(a), int(b)) for a, b in re.findall(r"\\draw\[fill=black\] \((\d+),(\d+)\) circle", tik)]
+    if grid is None or int(grid.group(1)) != len(p) or cells != set(sh) or pts != [(i + 1, v + 1) for i, v in enumerate(p)] or tik.count("rectangle") != len(sh):
+        return BAD("tikz_roundtrip", {"text": tik})
+    # shading lookups derived from the pattern
+    k = len(p)
+    want_boxes = {(i + dx, v + dy) for i, v in enumerate(p) for dx in (0, 1) for dy in (0, 1)}
+    if set(M.non_pointless_boxes()) != want_boxes:
+        return BAD("non_pointless_boxes", {"got": sorted(M.non_pointless_boxes()), "want": sorted(want_boxes)})
+    want_anch = (
+        all((k, i) in sh for i in range(k + 1)),
+        all((i, k) in sh for i in range(k + 1)),
+        all((0, i) in sh for i in range(k + 1)),
+        all((i, 0) in sh for i in range(k + 1)),
+    )
+    if tuple(M.has_anchored_point()) != want_anch:
+        return BAD("has_anchored_point", {"got": list(M.has_anchored_point()), "want": list(want_anch)})
+    for c in [(x, y) for x in range(k + 1) for y in range(k + 1)]:
+        if M.is_shaded(c) != (c in sh):
+            return BAD("is_shaded_cell", {"cell": c})
+    if tuple(M.get_perm()) != p or len(M) != k:
+        return BAD("get_perm", {})
     return OK(bool(sh) and len(p) >= 1, "plot")
 
 
